@@ -48,7 +48,8 @@ ZeroCnt == [s |-> 0, w |-> 0, d |-> FALSE, k |-> FALSE, e |-> 0]
 
 Pinned(t) == mode[t] # "out"
 CanOp(t, name) == pc[t] = "idle" /\ mode[t] \in {"out", "in"} /\ nops[t] < MaxOps /\ name \in OpsEnabled
-Start(t) == nops' = [nops EXCEPT ![t] = @ + 1]
+CountOps == MaxOps < 1000000            \* trace configurations are unbounded and do not count calls
+Start(t) == nops' = IF CountOps THEN [nops EXCEPT ![t] = @ + 1] ELSE nops
 Goto(t, l) == pc' = [pc EXCEPT ![t] = l]
 
 AddTask(T, k, o, ep) ==
@@ -223,15 +224,19 @@ DG0(t) ==
     /\ UNCHANGED <<gep, mode, cnt, life, lnk, wlnk, reg, cret, rc, wk, it, sn, ws, nops>>
 DG1(t) ==
     /\ pc[t] = "dg1"
-    /\ reg' = [reg EXCEPT ![t].e = cnt[reg[t].o].e]
+    /\ reg' = [reg EXCEPT ![t].e = cnt[reg[t].o].e, ![t].res = cnt[reg[t].o].s > 0]   \* the loaded word: stamp, count > 0
     /\ Goto(t, "dg2")
     /\ UNCHANGED <<gep, mode, lep, cnt, life, lnk, wlnk, tasks, cret, rc, wk, it, sn, ws, nops>>
 DG2(t) ==
     /\ pc[t] = "dg2"
     /\ IF Depth(t) = 0 \/ Old(reg[t].e, gep) \/ "CascadeAlways" \in Mut
-         THEN /\ UNCHANGED tasks
-              /\ reg' = [reg EXCEPT ![t].stk = Append(@, [ne |-> reg[t].e, cur |-> gep, edges |-> <<>>])]
-              /\ Goto(t, IF "mark" \in Fix /\ Depth(t) > 0 THEN "dgm" ELSE "dg3")
+         THEN IF "mark" \in Fix /\ Depth(t) > 0 /\ reg[t].res
+              \* the first round of the marking loop uses the word loaded at dg1: a count there means no CAS at all
+              \* (the count cannot return to 0 meanwhile: only this cascade's deferred try_destruct may take it there)
+              THEN /\ Defer("destruct", reg[t].o) /\ UNCHANGED reg /\ DGReturn(t)
+              ELSE /\ UNCHANGED tasks
+                   /\ reg' = [reg EXCEPT ![t].stk = Append(@, [ne |-> reg[t].e, cur |-> gep, edges |-> <<>>])]
+                   /\ Goto(t, IF "mark" \in Fix /\ Depth(t) > 0 THEN "dgm" ELSE "dg3")
          ELSE /\ Defer("destruct", reg[t].o) /\ UNCHANGED reg /\ DGReturn(t)
     /\ UNCHANGED <<gep, mode, lep, cnt, life, lnk, wlnk, cret, rc, wk, it, sn, ws, nops>>
 DGM(t) ==   \* repair "mark": a cascaded child is marked DESTRUCTED iff its count is still 0
@@ -250,14 +255,23 @@ Edges(o) == LET F == {f \in Fld : lnk[<<"f", o, f>>].p # NULL}
             IN Mk(F)
 DG3(t) ==   \* pop_edges + payload drop (367-369)
     /\ pc[t] = "dg3"
-    /\ LET o == reg[t].o  d == Depth(t) IN
+    /\ LET o == reg[t].o  d == Depth(t)  wf == wlnk[<<"f", o>>].p IN
        /\ life' = [life EXCEPT ![o] = "dead"]
-       /\ reg' = [reg EXCEPT ![t].stk[d].edges = Edges(o)]
+       /\ reg' = [reg EXCEPT ![t].stk[d].edges = Edges(o), ![t].x = wf]
        /\ lnk' = [l \in SLoc |-> IF l[1] = "f" /\ l[2] = o THEN NullLink ELSE lnk[l]]
-       \* the payload's AtomicWeak field is dropped with the payload: its share is released by a deferred-free path
-       /\ wlnk' = wlnk
-    /\ Goto(t, "dg4")
+       \* the payload's AtomicWeak field is dropped with the payload (weak.rs:300-310): its share of the
+       \* target's weak count is released right here, inside the payload drop, before the WEAKED test
+       /\ wlnk' = [wlnk EXCEPT ![<<"f", o>>] = NullLink]
+       /\ Goto(t, IF wf = NULL THEN "dg4" ELSE "dg_wdecw")
     /\ UNCHANGED <<gep, mode, lep, cnt, tasks, cret, rc, wk, it, sn, ws, nops>>
+DGWDecW(t) ==   \* AtomicWeak::drop -> decrement_weak(target, None) (utils.rs:263-272)
+    /\ pc[t] = "dg_wdecw"
+    /\ LET x == reg[t].x IN
+       /\ cnt' = [cnt EXCEPT ![x].w = @ - 1]
+       /\ IF cnt[x].w = 1 THEN Defer("dealloc", x) ELSE UNCHANGED tasks
+    /\ reg' = [reg EXCEPT ![t].x = NULL]
+    /\ Goto(t, "dg4")
+    /\ UNCHANGED <<gep, mode, lep, life, lnk, wlnk, cret, rc, wk, it, sn, ws, nops>>
 DG4(t) ==   \* WEAKED? (370)
     /\ pc[t] = "dg4"
     /\ Goto(t, IF cnt[reg[t].o].k /\ "DisposeFreesWeaked" \notin Mut THEN "dg_decw" ELSE "dg_free")
@@ -300,14 +314,18 @@ Call(t, o, entry, ret, own, n, g) ==
 UA == UNCHANGED <<gep, mode, lep, cnt, life, lnk, wlnk, tasks, cret, rc, wk, it, sn, ws>>   \* a call start touches only pc/reg/nops
 
 FreshObj(o) == life[o] = "free" /\ \A o2 \in Obj : life[o2] = "free" => o2 >= o
-New(t) ==   \* Rc::new, optionally with next = AtomicRc::from(rc) (link without timestamp, strong.rs:375-384)
+\* An Rc handle keeps the raw word it was made from, timestamp included (a handle returned by swap or a
+\* successful compare_exchange carries the stamp the link had); handles are counted, not tracked, so a
+\* handle's stamp is any epoch of the past.  AtomicRc::from(rc) copies the word unchanged.
+HandleStamps == {0} \cup {e % M : e \in (IF gep >= M THEN gep - M + 1 ELSE 0)..gep}
+New(t) ==   \* Rc::new, optionally with next = AtomicRc::from(rc) (no re-stamping, strong.rs:375-384)
     /\ CanOp(t, "new")
-    /\ \E o \in Obj, v \in Obj \cup {NULL} :
-         /\ FreshObj(o) /\ (v # NULL => rc[t][v] > 0)
+    /\ \E o \in Obj, v \in Obj \cup {NULL}, hs \in HandleStamps, ht \in Tags :   \* the handle's tag is copied too
+         /\ FreshObj(o) /\ (v # NULL => rc[t][v] > 0) /\ (v = NULL => hs = 0)
          /\ life' = [life EXCEPT ![o] = "live"]
          /\ cnt' = [cnt EXCEPT ![o] = [ZeroCnt EXCEPT !.s = 1, !.w = 1]]
          /\ rc' = [rc EXCEPT ![t] = [x \in Obj |-> rc[t][x] + (IF x = o THEN 1 ELSE 0) - (IF x = v THEN 1 ELSE 0)]]
-         /\ lnk' = IF v = NULL THEN lnk ELSE [lnk EXCEPT ![<<"f", o, 1>>] = [p |-> v, tag |-> 0, ts |-> 0]]
+         /\ lnk' = [lnk EXCEPT ![<<"f", o, 1>>] = [p |-> v, tag |-> ht, ts |-> hs]]
     /\ Start(t)
     /\ UNCHANGED <<gep, mode, lep, wlnk, tasks, pc, reg, cret, wk, it, sn, ws>>
 NewMany(t) ==   \* Rc::new_many::<N> / new_many_iter (strong.rs:473-494): n handles, m un-yielded shares
@@ -521,22 +539,28 @@ Collect(t) == \* cs(); flush(); drop: a pin/unpin pair with a collection phase
     /\ Goto(t, "col") /\ Start(t)
     /\ UNCHANGED <<gep, cnt, life, lnk, wlnk, tasks, reg, rc, wk, it, sn, ws>>
 
-Next ==
-    \/ Advance
-    \/ \E t \in Thr :
-         \/ UnpinChoice(t) \/ ColExec(t) \/ ColRepin(t) \/ ColExit(t)
-         \/ DecPin(t) \/ DecEp(t) \/ DecCas(t) \/ Inc1(t) \/ Inc2(t) \/ IsndEp(t) \/ Isnd(t)
+\* the steps of one thread: silent ones have no scheduling point of their own in the code (they happen
+\* inside the step that precedes them), the others are one hook site each
+Silent(t) ==
+         \/ UnpinChoice(t) \/ ColExec(t) \/ ColRepin(t) \/ ColExit(t) \/ DecPin(t)
+         \/ RcFin(t) \/ UpFin(t) \/ SnFin(t) \/ WkFin(t)
+Atomic(t) ==
+         \/ DecEp(t) \/ DecCas(t) \/ Inc1(t) \/ Inc2(t) \/ IsndEp(t) \/ Isnd(t)
          \/ IncW1(t) \/ IncW2(t) \/ DecW(t) \/ TDealloc(t) \/ Free(t) \/ TD(t)
-         \/ DG0(t) \/ DG1(t) \/ DG2(t) \/ DGM(t) \/ DG3(t) \/ DG4(t) \/ DGDecW(t) \/ DGFree(t) \/ DG6(t)
+         \/ DG0(t) \/ DG1(t) \/ DG2(t) \/ DGM(t) \/ DG3(t) \/ DGWDecW(t) \/ DG4(t) \/ DGDecW(t) \/ DGFree(t) \/ DG6(t)
+         \/ LinkEp(t) \/ StoreSwap(t) \/ SwapSwap(t) \/ CasTry(t) \/ CasTagTry(t)
+         \/ WStoreSwap(t) \/ WSwapSwap(t) \/ WCasTry(t)
+ApiCall(t) ==
          \/ New(t) \/ NewMany(t) \/ IterNext(t) \/ IterEnd(t)
-         \/ Clone(t) \/ Counted(t) \/ Upgrade(t) \/ RcFin(t) \/ UpFin(t) \/ Drop(t) \/ Snap(t) \/ Load(t)
+         \/ Clone(t) \/ Counted(t) \/ Upgrade(t) \/ Drop(t) \/ Snap(t) \/ Load(t)
          \/ LinkOp(t, "store", "st_swap") \/ LinkOp(t, "swap", "sw_swap")
          \/ LinkOp(t, "cas", "cas_try") \/ LinkOp(t, "cas_tag", "cast_try")
-         \/ LinkEp(t) \/ StoreSwap(t) \/ SwapSwap(t) \/ CasTry(t) \/ CasTagTry(t)
-         \/ Downgrade(t) \/ WClone(t) \/ WkFin(t) \/ DropWeak(t) \/ WSnap(t) \/ WSUpgrade(t) \/ SnFin(t)
+         \/ Downgrade(t) \/ WClone(t) \/ DropWeak(t) \/ WSnap(t) \/ WSUpgrade(t)
          \/ WLoad(t) \/ WLinkOp(t, "wstore", "wst_swap") \/ WLinkOp(t, "wswap", "wsw_swap")
-         \/ WLinkOp(t, "wcas", "wcas_try") \/ WStoreSwap(t) \/ WSwapSwap(t) \/ WCasTry(t)
+         \/ WLinkOp(t, "wcas", "wcas_try")
          \/ Pin(t) \/ Unpin(t) \/ Collect(t)
+TStep(t) == Silent(t) \/ Atomic(t) \/ ApiCall(t)
+Next == Advance \/ \E t \in Thr : TStep(t)
 
 ---------------------------------------------------------------------------
 \* initial states: empty heap, or a seeded well-formed heap (Scen)
@@ -595,7 +619,7 @@ LiveLink(l) == l[1] = "c" \/ life[l[2]] = "live"
 C01 == \A t \in Thr, o \in Obj : (rc[t][o] > 0 \/ it[t][o] > 0 \/ InFlightOwner(t, o)) => life[o] = "live"
 C01Link == \A l \in SLoc : (LiveLink(l) /\ lnk[l].p # NULL) => life[lnk[l].p] = "live"
 C02 == \A t \in Thr : \A o \in sn[t] : life[o] = "live"
-C03 == /\ \A t \in Thr, o \in Obj : (wk[t][o] > 0 \/ o \in ws[t]) => life[o] \in {"live", "dead"}
+C03 == /\ \A t \in Thr, o \in Obj : (wk[t][o] > 0 \/ o \in ws[t] \/ (pc[t] = "dg_wdecw" /\ reg[t].x = o)) => life[o] \in {"live", "dead"}
        /\ \A l \in WLoc : (LiveLink(l) /\ wlnk[l].p # NULL) => life[wlnk[l].p] \in {"live", "dead"}
 EpochBound == \A t \in Thr : Pinned(t) => gep \in {lep[t], lep[t] + 1}
 \* C05: destruction never begins before the flag is set; the flag is stable
@@ -607,6 +631,7 @@ Once == \A t \in Thr : /\ pc[t] = "dg3" => life[reg[t].o] = "live"
                        /\ pc[t] = "dg_decw" => life[reg[t].o] = "dead"
 NoUnderflow == \A t \in Thr : /\ pc[t] = "dec_cas" => cnt[reg[t].o].s >= reg[t].n
                               /\ pc[t] \in {"decw", "dg_decw"} => cnt[reg[t].o].w >= 1
+                              /\ pc[t] = "dg_wdecw" => cnt[reg[t].x].w >= 1
                               /\ (pc[t] = "dg6" /\ reg[t].stk[Depth(t)].edges # <<>>) => cnt[Head(reg[t].stk[Depth(t)].edges).p].s >= 1
 DepthBound == \A t \in Thr : Depth(t) <= MaxDepth + 1
 TypeOK == /\ \A o \in Obj : cnt[o].s >= 0 /\ cnt[o].w >= 0
